@@ -191,6 +191,11 @@ def run_case(case: dict) -> dict:
         for normalized in (True, False):
             for given in (False, True):
                 st = {"x": round(rng.uniform(0.5, 2.5), 3), "y": round(rng.uniform(0.5, 2.5), 3)} if given else dict(net["y0"])
+                if given:
+                    # concentrations in other units (micromolar amounts written in molar): a kinetic order has no units
+                    unit = rng.choice([1.0, 1.0, 1e-3, 1e-5, 2e-6, 1e3])
+                    st = {k: v * unit for k, v in st.items()}
+                    counters[f"elasticities at a state of magnitude {unit:g}"] = counters.get(f"elasticities at a state of magnitude {unit:g}", 0) + 1
                 sub = rng.random() < 0.4
                 ve = mca.variable_elasticities(model, variables=st if given else None, normalized=normalized, to_scan=["y"] if sub else None)
                 untouched("variable_elasticities")
@@ -205,7 +210,10 @@ def run_case(case: dict) -> dict:
                 pe = mca.parameter_elasticities(model, variables=st if given else None, normalized=normalized, to_scan=scan)
                 untouched("parameter_elasticities")
                 exp = {q: v for q, v in par_elast(p, st, inhib, normalized).items() if q in scan}
-                viols += cmp_table(pe, exp, 1e-6, "parameter elasticity differs from the analytic partial derivative", {"normalized": normalized, "state": st, **ctx})
+                # a central difference over a relative displacement h of a parameter with (scaled) elasticity e is off by a
+                # relative (h e)^2 / 6: for an exponent at a concentration of 1e-6, e = n ln(1e-6) = -28 and that is 1e-6
+                emax = max(abs(x) for q, v in par_elast(p, st, inhib, True).items() if q in scan for x in v.values())
+                viols += cmp_table(pe, exp, 1e-6 + (1e-4 * emax) ** 2, "parameter elasticity differs from the analytic partial derivative", {"normalized": normalized, "state": st, **ctx})
                 counters["elasticity_tables"] = counters.get("elasticity_tables", 0) + 2
     elif case["part"] == "response":
         normalized = rng.random() < 0.6
